@@ -105,7 +105,7 @@ Qed.
 
 Lemma mp_unique_iff r : mp_unique r = true <-> tag_is r t_mp (TStr s_unique).
 Proof.
-  unfold mp_unique, tag_is. destruct (get_tag r t_mp) as [[z|s]|]; try (split; [discriminate|discriminate]).
+  unfold mp_unique, tag_eq_str, tag_is. destruct (get_tag r t_mp) as [[z|s]|]; try (split; [discriminate|discriminate]).
   rewrite str_eqb_eq. split; [intros ->; reflexivity|intros H; inversion H; reflexivity].
 Qed.
 
